@@ -1,0 +1,83 @@
+//! Verification hooks, only compiled with the `mahf_verif` feature.
+//!
+//! A [`StepObserver`] stored in the [`State`] is notified before and after every child
+//! component of every [`Block`] is executed.
+//!
+//! [`Block`]: crate::components::Block
+
+use better_any::{Tid, TidAble};
+
+use crate::{Component, CustomState, Problem, State, StateRegistry};
+
+/// Blocks notify the [`StepObserver`] when this is `true` (always, with the feature enabled).
+pub const OBSERVE_STEPS: bool = true;
+
+/// Whether the observer is called before or after the component was executed.
+#[derive(Debug, Clone, Copy, PartialEq, Eq)]
+pub enum StepPhase {
+    Before,
+    After,
+}
+
+/// Describes the child of a [`Block`] which is (or was) executed.
+///
+/// [`Block`]: crate::components::Block
+pub struct StepInfo<'c, P: Problem> {
+    /// The child component.
+    pub component: &'c dyn Component<P>,
+    /// Index of the child within its block.
+    pub index: usize,
+    /// Number of children of the block.
+    pub len: usize,
+    /// Address of the block, as an identifier that is stable during a run.
+    pub block: usize,
+    pub phase: StepPhase,
+    /// For [`StepPhase::After`]: whether the component returned `Ok`.
+    pub result_is_ok: bool,
+}
+
+/// Callback interface of the [`StepObserver`].
+pub trait StepObserve<P: Problem>: Send {
+    fn step(&mut self, problem: &P, state: &State<P>, info: &StepInfo<P>);
+}
+
+/// Optional observer state. If present in the state (in any scope), it is called around
+/// every child execution of every block.
+#[derive(Tid)]
+pub struct StepObserver<'a, P: Problem + 'static>(pub Box<dyn StepObserve<P> + 'a>);
+
+impl<'a, P: Problem> CustomState<'a> for StepObserver<'a, P> {}
+
+pub(crate) fn notify<'a, P: Problem>(problem: &P, state: &mut State<'a, P>, info: StepInfo<P>) {
+    // Find the scope holding the observer.
+    let mut depth = 0usize;
+    {
+        let mut registry: &StateRegistry<'a> = state;
+        loop {
+            if registry.contains_at_top::<StepObserver<'a, P>>() {
+                break;
+            }
+            match registry.parent() {
+                Some(parent) => {
+                    registry = parent;
+                    depth += 1;
+                }
+                None => return,
+            }
+        }
+    }
+    // Take the observer out so that it can inspect the complete state.
+    let mut observer = match state.remove::<StepObserver<'a, P>>() {
+        Ok(observer) => observer,
+        Err(_) => return,
+    };
+    observer.0.step(problem, state, &info);
+    // Put it back into the scope it came from.
+    let mut registry: &mut StateRegistry<'a> = state;
+    for _ in 0..depth {
+        registry = registry
+            .parent_mut()
+            .expect("scope depth changed while observing");
+    }
+    registry.insert(observer);
+}
